@@ -4,23 +4,23 @@ import json, re, os
 root = os.path.dirname(os.path.dirname(os.path.abspath(__file__)))
 rows = {
  'C01': ("offset assignment through Append/split, index position of every appended set (Append and AppendMessageSet), findSegment/findEntry, stored-message reader total and exact, Truncate removes a suffix only, committed reader (shared with C03)", "uncommitted reader's segment crossing, recovery from files, encoder side, CRC"),
- 'C02': ("leader-epoch cache (sorted, binary search, lookups, Assign, ClearLatest/ClearEarliest/Replace/Rebase), both recorders of an epoch start agree and the leader's answer matches the follower's truncation (K29), history trimmed on reopen and truncation, HW only from the current leader's epoch", "the multi-server composition (one instance replayed on a 3-node cluster)"),
- 'C03': ("HW monotone, only writers, committed reader resumes after old HW in the right segment, reads limited at the HW position, getHWPos over a symbolic index (K23), a read fills the buffer or fails (K32)", "liveness; HW waiters; a follower's HW ahead of its log wakes a parked reader only at the next HW change"),
- 'C04': ("ack rules, commit = min over ISR, minISR gate, size gate on the original NATS message, sealed-before-batched, a replica joining the ISR starts at -1", "cross-server timing"),
- 'C05': ("order of durable effects in an append, atomic checkpoints, epoch trimming, Truncate, recovery of the tail", "the crash-instant quantifier: bounded stand-in (an image at every hit of 11 crash points and torn writes in 6 workloads; K1, K2, K24 found and repaired)"),
- 'C06': ("apply dispatch, idempotency guards, tombstone typestate, read-only/paused/leader re-applied on rebuild, fresh stream objects, synchronous group notification (K22), paused flag cleared (K27)", "whole-history determinism across servers; snapshot fidelity: bounded stand-in; known findings K28 (restored partitions left in recovery mode) and K37 (assignments not restored)"),
+ 'C02': ("leader-epoch cache (sorted, binary search, lookups, Assign, ClearLatest/ClearEarliest/Replace/Rebase), both recorders of an epoch start agree and the leader's answer matches the follower's truncation (K29), history trimmed on reopen and truncation, HW only from the current leader's epoch, a follower reconciles with every new leader before fetching, a term starts without earlier progress (K46)", "the multi-server composition (one instance replayed on a 3-node cluster)"),
+ 'C03': ("HW monotone, only writers, committed reader resumes after old HW (or at its start offset, K55) in the right segment, list re-read after a wait, committed reverse reads capped at the HW, reads limited at the HW position, getHWPos over a symbolic index (K23), a read fills the buffer or fails (K32)", "liveness; HW waiters; a follower's HW ahead of its log wakes a parked reader only at the next HW change"),
+ 'C04': ("ack rules, commit = min over ISR, progress credited only from the replica's own report, minISR gate, size gate on the original NATS message, sealed-before-batched, a replica joining the ISR starts at -1", "cross-server timing"),
+ 'C05': ("order of durable effects in an append, atomic checkpoints (callee whitelists), epoch trimming, Truncate (suffix only, newest first, history cut last), recovery of the tail, open leaves the last segment active", "the crash-instant quantifier: bounded stand-in (an image at every hit of 13 crash points and torn writes in 6 workloads, second-level images at the crash points of recovery; K1, K2, K24, K47, K52, K54, K58 found and repaired)"),
+ 'C06': ("apply dispatch, idempotency guards, tombstone typestate, read-only/paused/leader re-applied on rebuild, fresh stream objects, synchronous group notification (K22) at the deletion's own place also in replay (K56), paused flag cleared (K27), coordinator change applied in replay, tombstoned streams not in a snapshot (K59)", "whole-history determinism across servers; snapshot fidelity: bounded stand-in; known findings K28 (restored partitions left in recovery mode) and K37 (assignments not restored)"),
  'C07': ("epoch fencing before AND under the proposal lock (K9, K30, K40), witnesses are in-sync followers of the current leader (K5, K41, K42), quorum, expiry forgets the status (K4)", "wall-clock window; two fail-overs of one partition racing each other"),
- 'C08': ("retain rule per message, newest segment untouched, one worker's key-table discipline (K7), segments appended during a clean are kept, reverse scanner start (K6), findEntry on sparse indexes", "the goroutine fan-out of the key scan: bounded stand-in; epoch cache rebuilt by a compaction; readers living across a compaction"),
+ 'C08': ("retain rule per message, newest segment untouched, one worker's key-table discipline (K7), segments appended during a clean are kept, reverse scanner start (K6) also from the end of an earlier segment, findEntry and findSegment on sparse logs, readers in a replaced segment are sent on", "the goroutine fan-out of the key scan: bounded stand-in; epoch cache rebuilt by a compaction; readers living across a compaction"),
  'C09': ("all three retention loops, unbounded; passes chained; age limit holds after the whole clean (K31); segments appended during a clean are kept", "message/byte limits after the later passes (suffix-sum lemma)"),
- 'C10': ("start/stop resolution, delivery loop never beyond the stop offset and ends with the status, timestamp lookups at property level over a symbolic multi-segment log (K18, K19)", "equal timestamps (K25, known finding), forward reader internals"),
- 'C11': ("store/fetch/cache consistency under the cursor lock (K3), cache only on the partition's leader and purged on leadership, key format, cursors stream compacted and exempt from retention (K39)", "K11 key collision (known finding); the reverse scan's result is assumed; a SetCursor that times out may still be stored"),
- 'C12': ("rebalance mechanics, heap order, epoch guards, coordinator-only answers, synchronous deletion notice, expiry call-back safe (K38)", "group-level invariants: bounded stand-in (all sequences up to 6/7)"),
+ 'C10': ("start/stop resolution (read-only end for forward subscriptions only, K57), a start offset inside the uncommitted tail (K55), delivery loop never beyond the stop offset and ends with the status, timestamp lookups at property level over a symbolic multi-segment log (K18, K19)", "equal timestamps (K25, known finding), forward reader internals"),
+ 'C11': ("store/fetch/cache consistency under the cursor lock (K3), cache only on the partition's leader and purged on leadership, key format, cursors stream compacted and exempt from retention (K39), compaction keeps the latest record per key, checkpoint leaves the current HW on disk", "K11 key collision (known finding); the reverse scan's result is assumed (bounded cursors stand-in); a SetCursor that times out may still be stored"),
+ 'C12': ("rebalance mechanics, heap order, epoch guards, coordinator-only answers, synchronous deletion notice at its own place (K22, K56), expiry call-back safe (K38), the end of a replay hands out nothing", "group-level invariants: bounded stand-in (all sequences up to 6/7)"),
  'C13': ("Owicki-Gries invariant of the group-subscriber table (K12)", "-"),
  'C14': ("envelope checker sound/complete against the documented format (K13, K33), all Unmarshal* panic-free, stored-message reader panic-free (K8, K17), publish path either/or, propagated requests need their body (K34), replication requests cannot panic the leader (K35)", "protobuf internals; remaining NATS handlers (malformed replicated message set, non-UTF-8 subjects)"),
- 'C15': ("authorisation typestate on every handler (K14, K15), effectful helpers only reachable after it, the switch read from its own configuration key (K36)", "casbin itself (assumed); the four consumer-group RPCs (no action in the documented vocabulary)"),
- 'C16': ("conditional append lands at the expected offset or is refused; at most one winner (lemma); the expected offset travels unchanged from the API request to the log message", "API paths that cannot state an expected offset (observed, not decided)"),
+ 'C15': ("authorisation typestate on every handler (K14, K15), effectful helpers only reachable after it, the switch read from its own configuration key (K36), the enforcer's request is the call's own, every SIGHUP reloads the policy", "casbin itself (assumed); the four consumer-group RPCs (no action in the documented vocabulary)"),
+ 'C16': ("conditional append lands at the expected offset or is refused; at most one winner (lemma); the expected offset travels unchanged from the API request to the log message; only the leader's log decides, the API server passes the verdict on; server-wide switch (K49)", "API paths that cannot state an expected offset (observed, not decided)"),
  'C17': ("everything batched for Append was sealed with the stream's key; every delivered value went through Read; Read/decrypt total (K16); layout", "AES-GCM / key wrap (assumed)"),
- 'C18': ("dispatch never skips an unhandled entry, id = Raft index, publish before record, events built from the entry alone", "K26 (resume point not in the snapshot, known finding); controller fail-over histories"),
+ 'C18': ("dispatch never skips an unhandled entry, id = Raft index, publish before record, events built from the entry alone, every term gets its dispatcher and channel, the lost term's channel stays in place", "K26 (resume point not in the snapshot, known finding); controller fail-over histories"),
  'C19': ("enabled-typestate before any request, environment opt-out (K20), payload field whitelist, data sources whitelist", "-"),
 }
 man = {c['property_id']: c for c in json.load(open(os.path.join(root, 'MANIFEST.json')))['checks']}
